@@ -8,7 +8,7 @@ use vcore::palette::{self, nearest, xterm240, Rgb};
 use vcore::rt::{self, Acc, Args, Report};
 use vcore::sgr::{ansi_index, ANSI_COLORS};
 
-const RULE: &str = "Inputs: RGB values from a 18^3 lattice, every candidate colour +-1 per channel, midpoints (+-1) between pairs of candidates, seeded random values (quick); ALL 2^24 RGB values (thorough). Targets: the 240 fixed colours of the 256-colour palette, and the 16-colour palette under VGA, Windows-10 and 14 more palettes (all-equal, duplicated entries, extremes only, 8 palettes clustered within 16 units of one cube corner each, 3 seeded random). All 256 indices and 16 palette colours for the remaining conversions. Oracle: brute-force search in i64 with the red-mean weighted distance, lowest index on ties; table by formula. Non-trivial = the input is not itself a candidate (distance > 0), distinct by (input, palette); ties are counted as a class.";
+const RULE: &str = "Inputs: RGB values from a 18^3 lattice, every candidate colour +-1 per channel, midpoints (+-1) between pairs of candidates, seeded random values (quick); ALL 2^24 RGB values (thorough). Targets: the 240 fixed colours of the 256-colour palette, and the 16-colour palette under VGA, Windows-10 and 20 more palettes (all-equal, duplicated entries, extremes only, 8 palettes clustered within 16 units of one cube corner each, an 8-colour palette doubled, halves swapped, 4 doubled palettes with sum-preserving transfers inside the bright half, 3 seeded random). All 256 indices and 16 palette colours for the remaining conversions. Oracle: brute-force search in i64 with the red-mean weighted distance, lowest index on ties; table by formula. Non-trivial = the input is not itself a candidate (distance > 0), distinct by (input, palette); ties are counted as a class.";
 
 fn to_rgb(c: Rgb) -> RgbColor {
     RgbColor(c.0, c.1, c.2)
@@ -55,6 +55,45 @@ fn palettes(seed: u64) -> Vec<(String, [Rgb; 16])> {
         }
         v.push((format!("cluster-{corner}"), p));
     }
+    // 8-colour palettes (bright half = normal half), plain and with sum-preserving transfers inside the
+    // bright half: the halves then differ although every aggregate (per-channel sums) is equal
+    let mut doubled = palette::VGA;
+    for i in 0..8 {
+        doubled[8 + i] = doubled[i];
+    }
+    v.push(("doubled".to_owned(), doubled));
+    let mut swapped = palette::VGA;
+    for i in 0..8 {
+        swapped.swap(i, 8 + i);
+    }
+    v.push(("halves-swapped".to_owned(), swapped));
+    let transfers = sample_values(rt::derive_seed(seed, "transfers", 0), 3, &proptest::collection::vec((8usize..16, 8usize..16, 0usize..3, 1u8..=170), 1..4));
+    for (k, ts) in transfers.into_iter().enumerate() {
+        let mut p = doubled;
+        for (i, j, ch, d) in ts {
+            if i == j {
+                continue;
+            }
+            let get = |e: Rgb| [e.0, e.1, e.2][ch];
+            let d = d.min(255 - get(p[i])).min(get(p[j]));
+            let add = |e: &mut Rgb, delta: i16| {
+                let c = match ch {
+                    0 => &mut e.0,
+                    1 => &mut e.1,
+                    _ => &mut e.2,
+                };
+                *c = (*c as i16 + delta) as u8;
+            };
+            add(&mut p[i], d as i16);
+            add(&mut p[j], -(d as i16));
+        }
+        v.push((format!("doubled-transfer-{k}"), p));
+    }
+    // the fixed instance of that family: red moved from entry 13 to entry 9
+    let mut fixed = doubled;
+    fixed[9].0 = 255;
+    fixed[13].0 = fixed[13].0.saturating_sub(255 - doubled[9].0);
+    v.push(("doubled-transfer-fixed".to_owned(), fixed));
     let rnd = sample_values(rt::derive_seed(seed, "palettes", 0), 3, &proptest::array::uniform16((any::<u8>(), any::<u8>(), any::<u8>())));
     for (i, p) in rnd.into_iter().enumerate() {
         v.push((format!("random-{i}"), p));
